@@ -172,6 +172,8 @@ class Ctx:
                 'thorough': getattr(self, 'thorough', None),
                 'fact_cache_key': self.info['cache_key'],
                 'fresh_extraction': self.info['fresh_extraction'],
+                # parameters / locals of the current tree that were mapped back to their reference names (nv/alpha.py)
+                'alpha_renamed': self.info.get('alpha_renamed', {}),
             },
             'assumptions': [
                 'clang 14 parser/Sema/CFG builder are correct',
